@@ -169,6 +169,9 @@ func (ip *Inode) Resize(atxn *alloctxn.AllocTxn, sz uint64) bool {
 	var doshrink = false
 	oldsz := util.RoundUp(ip.Size, disk.BlockSize)
 	util.DPrintf(5, "Resize %v to sz %d\n", oldsz, newSz)
+	if sz < ip.Size && sz%disk.BlockSize != 0 {
+		ip.zeroTail(atxn, sz)
+	}
 	ip.Size = newSz
 	newSz = util.RoundUp(sz, disk.BlockSize)
 	if newSz < oldsz {
@@ -186,6 +189,20 @@ func (ip *Inode) Resize(atxn *alloctxn.AllocTxn, sz uint64) bool {
 		}
 	}
 	return doshrink
+}
+
+// zeroTail clears the bytes of the last block that lie beyond the new size sz,
+// so that old data does not reappear when the file grows again.
+func (ip *Inode) zeroTail(atxn *alloctxn.AllocTxn, sz uint64) {
+	blkno, _ := ip.bmap(atxn, sz/disk.BlockSize)
+	if blkno == common.NULLBNUM {
+		return
+	}
+	buf := atxn.ReadBlock(blkno)
+	for i := sz % disk.BlockSize; i < disk.BlockSize; i++ {
+		buf.Data[i] = 0
+	}
+	buf.SetDirty()
 }
 
 // Returns blkno and root index block for off. If blkno is 0, failure.
